@@ -484,6 +484,38 @@ def clause7_write_contract(ctx, P):
             fmt_term(bad[1])) if bad else "the helper returns the write call's own result", witness=bad[0].witness() if bad else None)
 
 
+def clause8_skip_is_what_went_out(ctx, P):
+    """after a short write the part of the new frame that still has to be queued starts behind what the kernel took OF THAT FRAME:
+    on every path, the skip handed to copy_iovec_to_write_buffer() is 0 (nothing of the frame went out) or exactly
+    (bytes written) - (bytes that were pending before the call) - evaluated along the path with the pending count as it was on
+    entry (clearing it first and subtracting afterwards skips `pending` bytes too few and garbles the stream)"""
+    from ..core.pathmem import PathEval, a_fmt
+    f = P.fn("buffered_socket.c:buffered_socket_writev")
+    bad = None
+    n = 0
+    for p_ in P.paths(f, loop_iters=1):
+        pe = PathEval(P, f, Q.PathView(P, f, p_))
+        if pe.infeasible:
+            continue
+        for e in pe.events:
+            if e.kind != "call" or e.data.get("callee") != "copy_iovec_to_write_buffer":
+                continue
+            n += 1
+            skip = e.data["args"][3]
+            if skip == ({}, 0):
+                continue
+            leaves = skip[0]
+            wr = [l for l, c in leaves.items() if c == 1 and l[0] == "ret"]
+            pend = [l for l, c in leaves.items() if c == -1 and l[0] == "init" and "to_write" in repr(l)]
+            # (written is the constant 0 on paths where nothing was written; 0 > pending cannot happen, the evaluator does not know)
+            if not (skip[1] == 0 and len(pend) == 1 and len(wr) <= 1 and len(leaves) == len(pend) + len(wr)):
+                bad = bad or (pe, a_fmt(skip))
+    ctx.ob("C10.5 R-CURSOR", f, "queued-rest-starts-behind-what-went-out", bad is None and n >= 2,
+           "buffered_socket_writev() tells the queueing helper to skip %s bytes of the new frame; expected 0 or (written - pending on "
+           "entry): the queued rest does not continue where the kernel stopped, the peer's stream is garbled" % (bad[1] if bad else "?"),
+           witness=bad[0].view.witness() if bad else None)
+
+
 def run(ctx):
     for cfg in ctx.configs():
         P, cg = cfg.P, cfg.cg
@@ -494,3 +526,7 @@ def run(ctx):
         clause4_header(ctx, P)
         clause5_cursor(ctx, P)
         clause7_write_contract(ctx, P)
+        clause8_skip_is_what_went_out(ctx, P)
+        # 'a peer never sees part of a frame followed by other data': nothing is dispatched behind a request whose answer failed
+        from .c02 import clause6_batch
+        clause6_batch(ctx, P)
